@@ -408,7 +408,7 @@ Section Monitors.
     end.
 
   Definition c18_step (r : response) : bool := no_flag 2 r && no_flag 3 r.
-  Definition c09_step (r : response) : bool := no_flag 4 r.
+  Definition c09_step (r : response) : bool := no_flag 4 r && no_flag 8 r.
 
   (* 5xx is tolerated only on the callback when the PROVIDER interaction failed:
      the code exchange was refused, or the returned ID token is unacceptable *)
@@ -504,7 +504,9 @@ Definition steps_all (c : wcase)
 
 Definition st_c01 E cfg a (e : istr) (s : wstep) := c01_step E cfg a (w_now s) (w_rq s) (w_ans s) (w_obs s).
 Definition st_c03 E cfg (a e : istr) (s : wstep) := c03_step E cfg (w_now s) (w_rq s) (w_ans s) (w_obs s).
-Definition st_c03i (E : env) (cfg : config) (a e : istr) (s : wstep) := c03_init_step (w_obs s).
+(* flag 7: the state or nonce shown by this login redirect agrees with an earlier one of the same world in at least half
+   of its positions (values with that much common structure are predictable; the model's draws are arbitrary inputs) *)
+Definition st_c03i (E : env) (cfg : config) (a e : istr) (s : wstep) := c03_init_step (w_obs s) && no_flag 7 (w_obs s).
 Definition st_c04 (E : env) (cfg : config) (a e : istr) (s : wstep) := c04_step E (w_ans s) (w_obs s).
 Definition st_c06 E cfg (a e : istr) (s : wstep) := c06_step E cfg (w_now s) (w_rq s) (w_ans s) (w_obs s).
 (* flag 6: the harness read the request's (genuine, well-formed) cookies with an independent reader -- own codec,
